@@ -40,6 +40,9 @@ type Scenario struct {
 	UnlockedWrites bool
 	// UnlockPoints: every Mutex/RWMutex release is followed by a scheduling point
 	UnlockPoints bool
+	// SoloStalls: while the driver waits between events (QuiesceKeep), a thread that is the only enabled
+	// one may be stalled as well (one deviation): the driver goes on to its next event
+	SoloStalls bool
 	// SeqBases: when set, a driver choice picks the sequence number at which the harness-made
 	// connections of this execution start
 	SeqBases []uint64
@@ -154,7 +157,7 @@ func shortFunc(f string) string {
 // runOne executes the scenario once along prefix.
 func runOne(sc *Scenario, prefix []int, trace bool) *ExecReport {
 	x := &X{}
-	cfg := vs.Config{Prefix: prefix, MaxSteps: sc.MaxSteps, Trace: trace, AtomicPoints: sc.Atomic, NoPoison: sc.NoPoison, NoStalls: sc.NoStalls, UnlockedWrites: sc.UnlockedWrites, UnlockPoints: sc.UnlockPoints || forceUnlock, MapRaces: sc.MapRaces || (forceMapRaces && sc.MaxSteps <= 500000)} // (vector clocks grow with the number of threads: never on the long histories)
+	cfg := vs.Config{Prefix: prefix, MaxSteps: sc.MaxSteps, Trace: trace, AtomicPoints: sc.Atomic, NoPoison: sc.NoPoison, NoStalls: sc.NoStalls, SoloStalls: sc.SoloStalls, UnlockedWrites: sc.UnlockedWrites, UnlockPoints: sc.UnlockPoints || forceUnlock, MapRaces: sc.MapRaces || (forceMapRaces && sc.MaxSteps <= 500000)} // (vector clocks grow with the number of threads: never on the long histories)
 	if sc.MapOrder {
 		vs.MapOrderChoices = true
 	}
